@@ -72,5 +72,38 @@ fn vp_native_decoding_and_damage() {
             }
         }
     }
+    // more of the quantifier: every level, gzip members with optional name / comment / extra fields, the coding declared in
+    // Transfer-Encoding, close-delimited framing, the bytes() accessor
+    let p: Vec<u8> = (0..20000u32).map(|i| if i % 97 < 40 { b'z' } else { (i * 7 % 256) as u8 }).collect();
+    for level in 0u32..=9 {
+        let plain_gz = gz(&p, level);
+        let fancy = { let mut e = flate2::GzBuilder::new().filename("name.bin").comment("a comment").extra(vec![1u8, 2, 3, 4]).write(Vec::new(), flate2::Compression::new(level)); e.write_all(&p).unwrap(); e.finish().unwrap() };
+        for (what, enc) in [("plain member", &plain_gz), ("member with name, comment and extra field", &fancy)] {
+            for framing in ["length", "close", "chunked", "te-gzip-chunked", "te-deflate-chunked"] {
+                let body: Vec<u8> = if framing == "te-deflate-chunked" { deflate(&p, level) } else { enc.to_vec() };
+                let mut w = b"HTTP/1.1 200 OK\r\n".to_vec();
+                match framing {
+                    "length" => { w.extend_from_slice(format!("Content-Encoding: gzip\r\nContent-Length: {}\r\n\r\n", body.len()).as_bytes()); w.extend_from_slice(&body); }
+                    "close" => { w.extend_from_slice(b"Content-Encoding: gzip\r\n\r\n"); w.extend_from_slice(&body); }
+                    _ => {
+                        w.extend_from_slice(match framing { "chunked" => &b"Content-Encoding: gzip\r\nTransfer-Encoding: chunked\r\n\r\n"[..], "te-gzip-chunked" => b"Transfer-Encoding: GZIP, chunked\r\n\r\n", _ => b"Transfer-Encoding: deflate,Chunked\r\n\r\n" });
+                        for c in body.chunks(1000) { w.extend_from_slice(format!("{:x}\r\n", c.len()).as_bytes()); w.extend_from_slice(c); w.extend_from_slice(b"\r\n"); }
+                        w.extend_from_slice(b"0\r\n\r\n");
+                    }
+                }
+                for size in [3usize, 100000] {
+                    let (got, clean) = read_all(w.clone(), size); cases += 1;
+                    assert!(clean && got == p, "level {} {} {} framing read size {}: clean {} got {} of {} bytes", level, what, framing, size, clean, got.len(), p.len());
+                }
+                let req = PreparedRequest::new(Method::GET, "http://a.test/");
+                let b = parse_response(BaseStream::mock(w.clone()), &req, req.url()).unwrap().bytes().unwrap(); cases += 1;
+                assert!(b == p, "bytes(): level {} {} {} framing", level, what, framing);
+                // a HEAD response declares the coding but has no body to decode
+                let head = PreparedRequest::new(Method::HEAD, "http://a.test/");
+                let hb = parse_response(BaseStream::mock(w.clone()), &head, head.url()).unwrap().bytes().unwrap(); cases += 1;
+                assert!(hb.is_empty(), "HEAD response with a declared coding must have an empty body");
+            }
+        }
+    }
     println!("VP-NATIVE decoding_and_damage cases={}", cases);
 }
